@@ -58,6 +58,8 @@ class Monitor(object):
         self.t_connect = None
         self.opens_seen = 0
         self.multi = False
+        self.pending = {}
+        self.nframes = {}
 
     def fail(self, prop, what, key, extra=None):
         rp = {'cfg': self.conf, 'events': list(self.trace)}
@@ -82,10 +84,12 @@ class Monitor(object):
         if k == 'chunk':
             if sim.world.connectors[ev['c']].state in ('connected', 'closing') or True:
                 self.streams[ev['c']] = self.streams.get(ev['c'], b'') + bytes.fromhex(ev['hex'])
-            nframes = len(frames_of(bytes.fromhex(ev['hex']))) + 1
+            total = len(frames_of(self.streams[ev['c']]))
+            nframes = total - self.nframes.get(ev['c'], 0) + 1     # +1: the frame that ends the stream with an error
+            self.nframes[ev['c']] = total
             reports = [o for o in outs if o[0] == 'handler' and o[1] in ('update', 'update_error', 'open', 'keepalive',
                                                                       'notification', 'route_refresh')]
-            if len(reports) > nframes + 1:
+            if len(reports) > nframes:
                 self.fail('C10', 'more reports to the application than messages received', 'multi-report')
             if prev['state'] == 'ESTABLISHED':
                 fr = frames_of(self.streams[ev['c']])
@@ -103,6 +107,8 @@ class Monitor(object):
                 key = 'KF-retry-fires-while-attempt-pending'
             elif k == 'start' and pending_older:
                 key = 'KF-start-while-attempt-pending'
+            elif k == 'fire' and ev.get('t') == 'idlehold' and pending_older:
+                key = 'KF-idlehold-fires-while-attempt-pending'
             else:
                 key = 'other:%s' % k
             self.fail('C12', 'a second connection / attempt was started while one is live', key)
@@ -224,5 +230,173 @@ class Monitor(object):
                 self.fail('C03', 'keepalive timer expiry did not send a KEEPALIVE', 'keepalive-expiry')
         if st == 'IDLE':
             self.H = None
+        self.check_rfc(ev, prev, obs, sim)
         self.prev = {'state': obs['state'], 'conns': list(obs['conns']), 'proto': obs['proto'], 'timers': obs['timers'],
                      'now': obs['now']}
+
+    # ---------------- C01: the RFC 4271 section 8 table for the active-only profile (DESIGN Appendix A)
+    def classify_frame(self, b):
+        """class of a chunk that is exactly one frame; None when it is not classifiable"""
+        if len(b) < 19:
+            return None
+        if b[:16] != MARK:
+            return ('hdr', 1)
+        ln = struct.unpack('!H', b[16:18])[0]
+        if ln < 19 or ln > 4096:
+            return ('hdr', 2)
+        if len(b) != ln:
+            return None
+        ty, body = b[18], b[19:]
+        if ty == 1:
+            if len(body) < 10:
+                return ('hdr', 2)
+            ver, asn, hold, bid, ol = struct.unpack('!BHHIB', body[:10])
+            if ver != 4:
+                return ('openerr', 1)
+            # walk the optional parameters with an independent reader
+            rest = body[10:] if ol else b''
+            while rest:
+                if len(rest) < 2:
+                    return None
+                pt, pl = rest[0], rest[1]
+                if pt != 2:
+                    return ('openerr', 4)
+                pv, rest = rest[2:2 + pl], rest[2 + pl:]
+                if len(pv) != pl:
+                    return None
+                while pv:
+                    if len(pv) < 2 or len(pv) < 2 + pv[1]:
+                        return None
+                    cc, cl = pv[0], pv[1]
+                    cv, pv = pv[2:2 + cl], pv[2 + cl:]
+                    if cc == 65:
+                        if cl != 4:
+                            return None
+                        asn = struct.unpack('!I', cv)[0]
+                    elif cc in (1,) and cl != 4:
+                        return None
+                    elif cc == 69 or cc == 5 or cc == 71:
+                        return None     # family tables: not classified here
+            if asn == 0 or asn != self.cfg['remote_as']:
+                return ('openerr', 2)
+            if hold in (1, 2):
+                return ('openerr', 6)
+            return ('open', hold)
+        if ty == 2:
+            if len(body) < 4:
+                return None
+            wl = struct.unpack('!H', body[:2])[0]
+            if wl + 4 > len(body):
+                return None
+            return ('update',)
+        if ty == 3:
+            if len(body) < 2:
+                return None
+            return ('notification',)
+        if ty == 4:
+            return ('keepalive',) if not body else ('hdr', 2)
+        if ty in (5, 128):
+            return ('rr',) if len(body) == 4 else None
+        return ('hdr', 3)
+
+    def check_rfc(self, ev, prev, obs, sim):
+        k = ev['k']
+        ps, ns = prev['state'], obs['state']
+        outs = obs['outs']
+        if any(o[0] == 'unmodelled' for o in outs):
+            return
+        ws = [bytes.fromhex(o[2]) for o in outs if o[0] == 'write']
+        notifs = [(w[19], w[20]) for w in ws if w[18] == 3]
+        kas = [w for w in ws if w[18] == 4]
+        opens = [w for w in ws if w[18] == 1]
+        closed = any(o[0] == 'lose' for o in outs)
+
+        def bad(what, cls):
+            self.fail('C01', '%s: state %s, event %s -> state %s, NOTIFICATIONs %r, KEEPALIVEs %d, OPENs %d, close %s' % (
+                what, ps, cls, ns, notifs, len(kas), len(opens), closed), 'rfc:%s:%s' % (ps, cls if isinstance(cls, str) else cls[0]))
+
+        def expect_error(cls, code, sub):
+            if ns != 'IDLE' or notifs != [(code, sub)] or not closed or kas or opens:
+                bad('protocol error not answered with NOTIFICATION(%d,%d), close, Idle' % (code, sub), cls)
+
+        def expect_unchanged(cls):
+            if ns != ps or ws or closed or any(o[0] == 'connect' for o in outs):
+                bad('an event the RFC says to ignore changed something', cls)
+
+        insess = ps in ('OPENSENT', 'OPENCONFIRM', 'ESTABLISHED')
+        if k == 'fire':
+            t = ev['t']
+            if t == 'hold' and insess:
+                expect_error('hold-expires', 4, 0)
+            elif t == 'retry' and insess:
+                expect_error('retry-expires', 5, 0)
+            elif t == 'keepalive' and ps in ('OPENCONFIRM', 'ESTABLISHED'):
+                if ns != ps or len(kas) != 1 or notifs or closed:
+                    bad('keepalive timer expiry must send exactly one KEEPALIVE and keep the state', 'keepalive-expires')
+            elif ps == 'IDLE' and t in ('hold', 'retry', 'keepalive'):
+                expect_unchanged(t + '-expires')
+            elif ps == 'IDLE' and t == 'idlehold' and not self.stopped:
+                if ns != 'CONNECT' or not any(o[0] == 'connect' for o in outs):
+                    bad('idle-hold expiry must start connecting', 'idlehold-expires')
+        elif k == 'connok' and ps == 'CONNECT':
+            if ns != 'OPENSENT' or len(opens) != 1 or notifs:
+                bad('TCP established must send our OPEN and enter OpenSent', 'tcp-ok')
+        elif k == 'connfail' and ps == 'CONNECT':
+            if ns != 'IDLE' or ws:
+                bad('TCP failure must lead to Idle silently', 'tcp-fails')
+        elif k == 'lost' and insess and ev['c'] == prev['proto'] and prev['conns'][ev['c']] == 'connected':
+            if ns != 'IDLE' or ws:
+                bad('loss of the connection must lead to Idle silently', 'tcp-fails')
+        elif k == 'start' and insess:
+            expect_unchanged('manual-start')
+        elif k == 'chunk' and ev['c'] == prev['proto'] and insess:
+            b = bytes.fromhex(ev['hex'])
+            pending = self.pending.get(ev['c'], b'')
+            cls = self.classify_frame(b) if not pending else None
+            # keep track of unconsumed partial data so that only whole, aligned frames are classified
+            fr = frames_of(pending + b)
+            used = sum(ln for _, ln, _ in fr)
+            self.pending[ev['c']] = (pending + b)[used:] if (cls is None) else b''
+            if cls is None:
+                return
+            c0 = cls[0]
+            if c0 == 'hdr':
+                expect_error(cls, 1, cls[1])
+            elif c0 == 'openerr':
+                expect_error(cls, 2, cls[1])
+            elif c0 == 'open':
+                if ps == 'OPENSENT':
+                    if ns != 'OPENCONFIRM' or len(kas) != 1 or notifs or closed:
+                        bad('a valid OPEN in OpenSent must be answered with KEEPALIVE and lead to OpenConfirm', cls)
+                else:
+                    expect_error(cls, 5, 0)
+            elif c0 == 'keepalive':
+                if ps == 'OPENCONFIRM':
+                    if ns != 'ESTABLISHED' or ws or closed:
+                        bad('KEEPALIVE in OpenConfirm must lead to Established', cls)
+                elif ps == 'ESTABLISHED':
+                    expect_unchanged('keepalive')
+                else:
+                    expect_error(cls, 5, 0)
+            elif c0 == 'update':
+                if ps == 'ESTABLISHED':
+                    expect_unchanged('update')
+                else:
+                    expect_error(cls, 5, 0)
+            elif c0 == 'notification':
+                if ns != 'IDLE' or ws or not closed:
+                    bad('a NOTIFICATION must end the session without an answer', cls)
+            elif c0 == 'rr':
+                expect_unchanged('route-refresh')
+        if ns == 'ESTABLISHED' and ps != 'ESTABLISHED':
+            # entered only by a KEEPALIVE on the current connection after a valid OPEN on it
+            if not (k == 'chunk' and ev['c'] == obs['proto']):
+                bad('Established entered by something else than a message on the tracked connection', 'enter-established')
+            else:
+                stream = self.streams.get(ev['c'], b'')
+                types = [t for t, _, _ in frames_of(stream)]
+                if 1 not in types or 4 not in types[types.index(1):]:
+                    bad('Established entered without OPEN then KEEPALIVE from the peer on this connection', 'enter-established')
+                wr = [w[18] for w in sim.world.connectors[ev['c']].written]
+                if 1 not in wr or 4 not in wr:
+                    bad('Established entered without our own OPEN and KEEPALIVE on this connection', 'enter-established')
